@@ -23,7 +23,7 @@ from ..gutil import key_of, maxabs
 
 LEVEL = "model_checking"
 RULE = ("rate PID: menu e in {-10,0,10} per axis (7 vectors) x dt {1e-3,1e-2,0.1} for every (i_max, f_cut) in {0,0.25,2.5} x {1,10,1e3}, BFS on the integrator state to fix-point; "
-        "height integrator: e_z menu x dt; velocity mode: 12 stick vectors x dt {0.01,0.5,5,10} x 2 vehicle positions x reset {0,1}, all words to the depth; stick maps on {-1,-1/2,0,1/2,1}^4; "
+        "height integrator: e_z menu x dt; velocity mode: 12 stick vectors x dt {0.01,0.5,5,10} x 2 vehicle positions x reset {0,1}, all words to the depth; stick maps on {-1,-1/2,0,1/2,1}^4 + {1/3,-1/7,0.3337,-0.2504,0.99951,1e-4,-4.9e-4}^4 + members harvested along each stick axis; previous set-point NaN / inf with reset; gains incl. two equal entries; "
         "attitude laws on 40x40 attitude pairs (both signs, products, q_r = +-q). non-trivial = non-zero error / stick; distinct by raw bytes")
 ASSUMPTIONS = ["module constants (gains, limits) are read from the modules themselves", "reference logm in numpy; relative rotations within 0.01 rad of pi excluded"]
 
